@@ -52,6 +52,24 @@ Theorem c07_rv_frame_reads_bounded : forall n d c e,
 Proof. exact rv_rw_sound_bounded. Qed.
 Print Assumptions c07_rv_frame_reads_bounded.
 
+(* the same for the traced classes outside C08's well-formed table (Loadlrel: lw rd, %pcrel_lo(label)(rd));
+   the immediate is whatever the relocated bytes decode to: ops is arbitrary, so every relocated form of a
+   label-bearing class (here and in c07_rv_frame_reads) is covered by choosing the operand = relocated field *)
+Theorem c07_rv_frame_reads_nonwf : forall n d c e,
+  nth_error nonwf_riscv n = Some d -> nth_error rw_nonwf_riscv n = Some c -> ~ In n rw_nonwf_bad_riscv ->
+  rv_expectation d = Some e -> assoc_fmt rv_formats (fst e) <> None ->
+  forall ops bytes,
+  RV32Decode.decode bytes = Some (fst e, map (apply_vsel ops) (snd e)) ->
+  exists i, decode_instr bytes = Some i /\
+            frame_ok i (defined_registers c ops) /\ reads_ok i (used_registers c ops).
+Proof. exact rv_rw_sound_nonwf. Qed.
+Print Assumptions c07_rv_frame_reads_nonwf.
+
+Theorem c07_rv_flags_refuted_nonwf : forall n, In n rw_nonwf_bad_riscv ->
+  class_ok (desc_at nonwf_riscv n) (nth n rw_nonwf_riscv (EmptyString, [])) = false.
+Proof. exact rw_nonwf_refuted. Qed.
+Print Assumptions c07_rv_flags_refuted_nonwf.
+
 (* exported failing classes are real failures of the flag check (empty list = none) *)
 Theorem c07_rv_flags_refuted : forall n, In n rw_bad_riscv ->
   class_ok (desc_at table_riscv n) (nth n rw_riscv (EmptyString, [])) = false.
